@@ -153,6 +153,13 @@ def build_pool(ctx, index):
     sut.dump_desc(pdesc, P("pdesc.yaml"))
     ops.append({"kind": "create", "input": P("pdesc.yaml"), "family": "create", "reads": [P("child.suit")]})
     files["child"] = P("child.suit")
+    # an image named by path for its digest and its size
+    fdesc = _desc_min(6, "nordicsemi.com", "nRF54H20_sample_app")
+    fdesc["SUIT_Envelope_Tagged"]["suit-manifest"]["suit-install"] = [{"suit-directive-override-parameters": {
+        "suit-parameter-image-digest": {"suit-digest-algorithm-id": "cose-alg-sha-256", "suit-digest-bytes": {"file": P("blob1.bin")}},
+        "suit-parameter-image-size": {"file": P("blob1.bin")}}}]
+    sut.dump_desc(fdesc, P("fdesc.json"))
+    ops.append({"kind": "create", "input": P("fdesc.json"), "family": "create", "reads": [P("blob1.bin")]})
     # boot
     for name, (v, c) in {"root": ("nordicsemi.com", "nRF54H20_sample_root"), "app": ("nordicsemi.com", "nRF54H20_sample_app"), "rad": ("nordicsemi.com", "nRF54H20_sample_rad"),
                          "custom": ("acme.com", "custom_app")}.items():
@@ -349,6 +356,7 @@ def make_machine(ctx, acc, pool, refs, light=False):
     state = {"version": 0, "refs": refs, "log": []}  # log: every step of every sequence run in this interpreter so far
     blob, child = pool["files"]["blob"], pool["files"]["child"]
     original = {p: open(p, "rb").read() for p in (blob, child)}
+    stamps = {p: (os.stat(p).st_atime_ns, os.stat(p).st_mtime_ns) for p in (blob, child)}
 
     variants = {}
 
@@ -369,6 +377,7 @@ def make_machine(ctx, acc, pool, refs, light=False):
             for p, b in original.items():
                 with open(p, "wb") as fh:
                     fh.write(b)
+                os.utime(p, ns=stamps[p])
             self.vers = {blob: 0, child: 0}
             self.seen = []
 
@@ -410,10 +419,13 @@ def make_machine(ctx, acc, pool, refs, light=False):
             self.history.append({"rewrite": which, "version": ver})
             if which == "blob":
                 with open(blob, "wb") as fh:
-                    fh.write(bytes((j * 13 + ver) & 0xFF for j in range(17 + ver)))
+                    # (every other version keeps the size of the original, so that - with the time stamps restored below - only the CONTENT
+                    # of the file tells the versions apart: reproducible builds pad images to their slot and clamp time stamps)
+                    fh.write(bytes((j * 13 + ver) & 0xFF for j in range(len(original[blob]) if ver % 2 else 17 + ver)))
             else:
                 with open(child, "wb") as fh:
                     fh.write(child_variant(ver))
+            os.utime(path, ns=stamps[path])
 
         @rule(i=st.integers(0, 3))
         def mutate_copy(self, i):
@@ -482,6 +494,13 @@ def run_shard(ctx, spec):
                 if not os.path.exists(os.path.join(o, fn)):
                     with open(os.path.join(o, fn), "wb") as fh:
                         fh.write(b"a file of this name in the working directory " + fn.encode())
+            # ... and files called like the KEYS of the pool (another project's checkout): keys of the other type / a short AES key, so that
+            # using them shows even behind the mask
+            if not os.path.exists(os.path.join(o, "es.pem")):
+                CO.write_key(CO.gen_key("eddsa"), o, "es", "pem")
+                CO.write_key(CO.gen_key("es-256"), o, "ed", "pem")
+                with open(os.path.join(o, "aes.bin"), "wb") as fh:
+                    fh.write(b"short")
         for hi, hs in enumerate(HASHSEEDS if ctx.thorough else HASHSEEDS[:4] + [4242]):
             got = references(pool, list(range(n)), hashseed=hs, cwd=others[hi % 2], guard=guard)
             for i in range(n):
